@@ -130,6 +130,44 @@ EXTRA = [
     s = s + a
   return (a, c, s)
 '''),
+    ('p:read_only_by_default_expression', '''def f(x, n, b, xs):
+  base = x
+  step = 1
+  m = 0
+  if b:
+    base = base + 1
+  def h(a, *, k=base):
+    return a + k
+  if n > 1:
+    step = step + n
+  g = lambda a, *, k=step: a * k
+  if x > 0:
+    m = m + 7
+  else:
+    m = m + 9
+  def q(a, k=m):
+    return a - k
+  return (h(1), g(2), q(3))
+'''),
+    ('p:nonlocal_updated_in_branch_of_inner_function', '''def f(x, n, b, xs):
+  total = 1
+  last = 0
+  def inner(p):
+    nonlocal total, last
+    if p > x:
+      total = total + p
+    else:
+      last = p
+    w = 0
+    while w < p:
+      w = w + 1
+      if w == 2:
+        last = last + w
+    return 0
+  r = inner(n)
+  s = inner(1)
+  return (total, last, r, s)
+'''),
     ('p:swap_and_tuple', '''def f(x, n, b, xs):
   a = 0
   c = 1
@@ -145,6 +183,36 @@ EXTRA = [
 ]
 
 
+# Listed finding (same root cause as the C06/C07 zero-trip entries): re-observed on every run.
+WITNESS = [
+    ('w:for_target_modified_in_body_conditional', '''def f(x, n, b, xs):
+  i = 0
+  for i in range(n):
+    if b:
+      i = i * 2 + 1
+  return i
+'''),
+]
+
+
+def classify(p, m, r):
+  """Structural pattern of the listed finding: the target of a for loop is rebound inside
+  an if/while/for block of that loop's body."""
+  import ast
+  tags = set()
+  if r.get('kind') != 'mismatch':
+    return tags
+  for node in ast.walk(ast.parse(p.src)):
+    if not isinstance(node, ast.For):
+      continue
+    tg = {t.id for t in ast.walk(node.target) if isinstance(t, ast.Name)}
+    for st in node.body:
+      if isinstance(st, (ast.If, ast.While, ast.For)) and any(
+          isinstance(a, ast.Name) and isinstance(a.ctx, ast.Store) and a.id in tg for a in ast.walk(st)):
+        tags.add('for_target_rebound_in_body_block_not_an_output')
+  return tags
+
+
 def programs(tier, seed):
   rnd = random.Random(seed)
   sk = gen.skeletons(2, pure=True)
@@ -157,6 +225,7 @@ def programs(tier, seed):
     progs += gen.random_programs(250, seed, gen.PURE_FEATURES, 3, 5, tracer=False, prefix='prnd')
     progs += gen.random_programs(60, seed + 1, gen.PURE_FEATURES, 4, 6, tracer=False, prefix='prnd')
   progs += [gen.Prog(n, s, {'extra'}) for n, s in EXTRA]
+  progs += [gen.Prog(n, s, {'witness'}) for n, s in WITNESS]
   return progs
 
 
@@ -166,7 +235,7 @@ def run(tier):
   bounds = {'n': 3, 'len': 2}
   pct, ppt = (20.0, 5.0) if tier == 'quick' else (90.0, 15.0)
   results, stats = e1run.run_family(
-      R, progs, [MODE], bounds, pct, ppt, None,
+      R, progs, [MODE], bounds, pct, ppt, classify,
       title='functional backend computes a different result (state tuple incomplete)')
   cov = {
       'programs': len(progs),
